@@ -475,6 +475,83 @@ impl GenModule {
     }
 }
 
+/// canonical text of an element with its own name and every reference masked: the part of the content that neither
+/// merge nor cleanup can change
+fn static_body(e: &Elem, top: bool, out: &mut String) {
+    out.push_str(&e.tag);
+    for (i, (site, v)) in e.params.iter().enumerate() {
+        if !site.is_empty() {
+            match site_of(site) {
+                Some(Site::Def(_)) if top && i == 0 => {
+                    out.push_str(" <name>");
+                    continue;
+                }
+                Some(Site::Ref(_)) => {
+                    out.push_str(" <ref>");
+                    continue;
+                }
+                _ => {}
+            }
+        }
+        out.push(' ');
+        out.push_str(v);
+    }
+    for c in &e.children {
+        out.push_str(" {");
+        static_body(c, false, out);
+        out.push('}');
+    }
+}
+
+fn collect_refs(e: &Elem, out: &mut Vec<String>) {
+    for (site, v) in &e.params {
+        if !site.is_empty() {
+            if let Some(Site::Ref(_)) = site_of(site) {
+                if !is_convention(site, v) {
+                    out.push(format!("{site}@{}", hex(v.as_bytes())));
+                }
+            }
+        }
+    }
+    for c in &e.children {
+        collect_refs(c, out);
+    }
+}
+
+/// the module as a list of nodes for the Lean graph model: `TAG~hexname~bodyhash~site@hextarget;...` per MODULE child
+/// (name empty for unnamed children), joined by `,`; `-` for an empty module
+pub fn nodes_text(module: &Elem) -> String {
+    let mut nodes = vec![];
+    for c in &module.children {
+        let first_site = c.params.first().map(|p| p.0.clone()).unwrap_or_default();
+        let name = match site_of(&first_site) {
+            Some(Site::Def(_)) => c.params[0].1.clone(),
+            _ => String::new(),
+        };
+        let mut body = String::new();
+        static_body(c, true, &mut body);
+        let mut refs = vec![];
+        collect_refs(c, &mut refs);
+        nodes.push(format!("{}~{}~{:016x}~{}", c.tag, hex(name.as_bytes()), hash_of(&body), if refs.is_empty() { "-".to_string() } else { refs.join(";") }));
+    }
+    if nodes.is_empty() { "-".to_string() } else { nodes.join(",") }
+}
+
+/// like `nodes_text` without the body hash (cleanup may drop emptied list blocks, which changes the static body)
+pub fn nodes_text_nohash(module: &Elem) -> String {
+    let t = nodes_text(module);
+    if t == "-" {
+        return t;
+    }
+    t.split(',')
+        .map(|n| {
+            let p: Vec<&str> = n.split('~').collect();
+            format!("{}~{}~{}", p[0], p[1], p[3])
+        })
+        .collect::<Vec<_>>()
+        .join(",")
+}
+
 /// debugging aid: where does the reader stop?
 pub fn read_modules_debug(g: &Grammar, text: &str) -> String {
     let dump = a2lfile::verif_hooks::tokenize_dump(text).unwrap();
